@@ -87,6 +87,8 @@ struct Harness {
   virtual std::string describe(const Plan&) = 0;                           // human-readable form for samples
   virtual Outcome run(const Plan&, const vsim::Config& cfg) = 0;           // begin()..end() inside
   virtual void warm(long) {}                                               // in-process history before the runs (long-lived process)
+  virtual bool first_use_run() { return false; }                           // true: one unreported run is executed first in every process, so that one-off
+                                                                           // initialisations (singletons, first insertions) never fall into a counted run
 };
 
 // ------------------------------------------------------------------ per-run context for the fatal path
@@ -95,11 +97,11 @@ inline RunCtx& ctx() { static RunCtx c; return c; }
 
 inline std::string cfg_json(const vsim::Config& c) {
   return "{\"seed\":" + std::to_string(c.seed) + ",\"strategy\":" + std::to_string(c.strategy) + ",\"starve_thread\":" + std::to_string(c.starve_thread) +
-         ",\"sticky_num\":" + std::to_string(c.sticky_num) + ",\"sig_linux_bias\":" + std::to_string(c.sig_linux_bias) + ",\"max_steps\":" + std::to_string(c.max_steps) + ",\"pid_recycle\":" + std::to_string(c.pid_recycle) + "}";
+         ",\"sticky_num\":" + std::to_string(c.sticky_num) + ",\"sig_linux_bias\":" + std::to_string(c.sig_linux_bias) + ",\"max_steps\":" + std::to_string(c.max_steps) + ",\"pid_recycle\":" + std::to_string(c.pid_recycle) + ",\"alloc_rate\":" + std::to_string(c.alloc_rate) + ",\"alloc_phase\":" + std::to_string(c.alloc_phase) + "}";
 }
 inline void cfg_from(const J& j, vsim::Config& c) {
   c.seed = uint64_t(j.geti("seed", 1)); c.strategy = int(j.geti("strategy")); c.starve_thread = int(j.geti("starve_thread", -1));
-  c.sticky_num = int(j.geti("sticky_num", 3)); c.sig_linux_bias = int(j.geti("sig_linux_bias")); c.max_steps = long(j.geti("max_steps", 200000)); c.pid_recycle = int(j.geti("pid_recycle"));
+  c.sticky_num = int(j.geti("sticky_num", 3)); c.sig_linux_bias = int(j.geti("sig_linux_bias")); c.max_steps = long(j.geti("max_steps", 200000)); c.pid_recycle = int(j.geti("pid_recycle")); c.alloc_rate = int(j.geti("alloc_rate")); c.alloc_phase = int(j.geti("alloc_phase"));
 }
 
 // result lines go to a private duplicate of the original stdout: the code under test may redirect or close fd 1
@@ -148,6 +150,7 @@ inline int harness_main(int argc, char** argv, Harness& h) {
   }
   auto& c = ctx(); c.h = &h; c.variant = variant;
   if (warm > 0) h.warm(warm);
+  if (h.first_use_run() && !plan_only) { vsim::Config wc; wc.seed = 424242; Plan wp = h.generate(424242, 0, wc); wc.faults.clear(); for (auto& f : wp.faults) if (f.size() >= 3) wc.faults.push_back({int(f[0]), f[1], f[2]}); wc.alloc_rate = 0; c.seed = 424242; c.plan = wp; c.cfg = wc; vsim::set_fatal_callback(nullptr); (void)h.run(wp, wc); vsim::set_fatal_callback(fatal_cb); }
   if (replay) {
     J j = parse_file(replay);
     c.seed = uint64_t(j.geti("seed")); c.plan = plan_from(*j.get("plan")); c.cfg = vsim::Config{}; if (j.get("cfg")) cfg_from(*j.get("cfg"), c.cfg);
